@@ -404,7 +404,7 @@ def logout_corpus():
            ('identify', 2, 'alice!a@laptop.example'), ('identify', 2, 'alice_m!mob@phone.example'), ('lookup', 'alice!a@laptop.example')]
     ops += [('lookup', 'n%d!u@h%d.pool.example' % (i, i)) for i in range(400)]
     ops += [('lookup', 'alice_m!mob@phone.example')]
-    ops += [('lookup', 'm%d!u@h%d.pool.example' % (i, i)) for i in range(590)]
+    ops += [('lookup', 'm%d!u@h%d.pool.example' % (i, i)) for i in range(620)]
     ops += [('dump',), ('unidentify', 2), ('lookup', 'alice!a@laptop.example'), ('lookup', 'alice_m!mob@phone.example'), ('dump',)]
     yield ops
 
@@ -719,7 +719,12 @@ def run_phistory(impl, r, n, kind, fixed=None):
             c = tuple(c)
         else:
             if len(cmds) > n: break
-            c = ('reset', r.choice([0, 0, 10, 60])) if first else gen_pcmd(r, impl)
+            if first:
+                c = ('reset', r.choice([0, 0, 10, 60]))
+            elif cmds and cmds[-1][0] == 'p_unidentify' and r.random() < 0.7:
+                c = ('p_whoami', cmds[-1][1])          # asked again right after the logout
+            else:
+                c = gen_pcmd(r, impl)
         first = False
         cmds.append(c)
         k = c[0]
@@ -795,6 +800,14 @@ def run_phistory(impl, r, n, kind, fixed=None):
                     secrets[i] = c[3]
             if k == 'p_identify' and target is not None and secrets.get(target) == c[3]:
                 glog.add((target, impl.clock.now, c[1], c[1]))
+            if k == 'p_identify' and out == 'success' and target is not None and target in impl.U.users \
+                    and (impl.clock.now, c[1]) not in [(int(w), m) for (w, m) in impl.U.users[target].auth]:
+                fail('command %d %r: identify at time %d succeeded, but the login from %s is dated %r'
+                     % (len(cmds) - 1, c, impl.clock.now, c[1], [int(w) for (w, m) in impl.U.users[target].auth if m == c[1]]))
+            if k == 'p_unidentify' and out == 'success':
+                left = [(i, [(int(w), m) for (w, m) in u.auth if m == c[1]]) for i, u in impl.U.users.items() if any(m == c[1] for (w, m) in u.auth)]
+                if left:
+                    fail('command %d %r: unidentify succeeded, but a login from %s is still held: %r' % (len(cmds) - 1, c, c[1], left))
             tags.add(k + ':' + out.split('\t')[0])
         outs.append(out); lines.append(p_wire(c))
         trace.append('%3d %-100s -> %s' % (len(cmds) - 1, repr(c)[:100], out.replace('\t', ' ')))
